@@ -271,8 +271,12 @@ int yr_parser_emit_pushes_for_rules(
 
   for (uint32_t i = 0; i <= compiler->current_rule_idx; i++)
   {
-    // Is rule->identifier prefixed by prefix?
-    if (strncmp(prefix, rule->identifier, strlen(prefix)) == 0)
+    // Is rule->identifier prefixed by prefix? Only rules of the namespace
+    // being compiled are candidates: a rule with the same identifier in some
+    // other namespace would otherwise resolve (by name) to this namespace's
+    // rule, which would then be pushed twice.
+    if (rule->ns == ns &&
+        strncmp(prefix, rule->identifier, strlen(prefix)) == 0)
     {
       uint32_t rule_idx = yr_hash_table_lookup_uint32(
           compiler->rules_table, rule->identifier, ns->name);
